@@ -32,6 +32,15 @@ CHECKS = {
  "C10": dict(level="exploration", technique="property-based testing (proptest): xt output fed back without a format vs with the format named; TOML precondition decided by independent harness predicates",
    text="Generated collection-rooted documents are translated to each output format; the output must be detected as that format (hook) and translate identically with and without naming it, from a slice and from a scheduled reader. The TOML precondition is evaluated without xt and the fraction satisfying it is reported.",
    note="Shares K4/K6 with C09 for failing runs.", ref="4 C10"),
+ "C05": dict(level="exploration", technique="schedule-owning generated streams: a lazily generating reader and a counting writer observe the read/write interleaving (lag invariant over the history); counting global allocator observes peak heap",
+   text="The harness owns the packetisation of a lazily generated stream and checks, at every read call of every generated stream, the statement's lag bound against per-document translation sizes; peak live heap is measured by a counting allocator against a bound proportional to one document, plus a 10x-length growth comparison.",
+   note="Memory bounds are loose by design (slurping-class regressions). Document sizes up to tens of KiB in quick, hundreds of KiB in thorough.", ref="4 C05"),
+ "C11": dict(level="fault_enumeration", technique="planted-defect enumeration over generated documents: syntax damage at drawn byte positions vs the parser crate's own message (mirrored drive), unrepresentable leaf at every node path vs standalone serializer reasons, writer fault at every output byte",
+   text="Each generated document gets exactly one planted defect; the oracle for the error text is derived at run time from the very parser/serializer crates xt drives (same locked versions), never hard-coded. Node paths and writer fault offsets are enumerated exhaustively per document; syntax damage positions are drawn.",
+   note="Positions in messages are not asserted to be stream-relative. For MessagePack targets the inner I/O error is not printed by rmp_serde; its own failure phrase is required instead.", ref="4 C11"),
+ "C12": dict(level="fault_enumeration", technique="exhaustive fault-offset enumeration per generated input: reader failing at every input offset, writer failing at every output offset, short-write patterns; oracle = verdict, preserved error text, document-prefix / byte-prefix relation to the fault-free run",
+   text="For every generated valid stream all reader fault offsets 0..=|input| and all writer fault offsets below the output length are enumerated (sampled only above 2 KiB / 1 KiB), for named and detected sources, all targets and drawn read schedules.",
+   note="Faulty readers keep failing once they failed. Complete documents are compared, not byte prefixes, for reader faults.", ref="4 C12"),
 }
 
 PENDING = {}
